@@ -248,7 +248,7 @@ def run(tier, replay=None):
     if min(ne["hdr"], ne["up"], ne["poll"], ne["end"]) == 0 or min(ev_n.values()) == 0:
         raise MachineryError(f"vacuous trace: {ne} {ev_n}")
     # vacuity
-    if st["scenarios"] < len(gen) or st["publications"] == 0 or st["poll_reads"] == 0 or st["histories_started"] == 0:
+    if st["scenarios"] != st["tlc_histories"] + st["seeded_histories"] or st["publications"] == 0 or st["poll_reads"] == 0 or st["histories_started"] == 0:
         raise MachineryError(f"vacuous run: {json.dumps({k: v for k, v in st.items() if not k.startswith('_')})[:1500]}")
     if compared < st["scenarios"]:
         raise MachineryError(f"explorer predictions for {compared} of {st['scenarios']} histories only")
